@@ -45,3 +45,59 @@ def pick(rng, names):
     if n == "waitdag":
         return waitdag(rng)
     raise ValueError(n)
+
+
+def nested(rng, depth=None):
+    spec = gen.gen_dag(rng, n_nodes=(4, 9), p_default_edge=0.05)
+    for ns in spec["nodes"]:
+        ns["fid"] = f"g/{ns['name']}"
+    cur = spec
+    for d in range(depth or rng.randint(1, 3)):
+        res = gen.nest_once(rng, cur, f"sub{d}", allow_select=False)
+        if res:
+            cur = res[1]
+    from hgmon import ref
+
+    inputs = {k: f"run:{k}" for k in ref.ref_inputs(cur)[0]}
+    return {"family": "nested", "spec": cur, "inputs": inputs, "kw": {}, "unique_outputs": True}
+
+
+def mapped(rng, err=None):
+    """outer: pre -> [inner mapped over a list] -> post ; inner is a small DAG (optionally with a gate)."""
+    inner = gen.gen_dag(rng, n_nodes=(1, 4), n_inputs=(1, 2), p_default_input=0.0, p_default_edge=0.0, p_gen=0.0, p_noout=0.0, name="inner", prefix="m")
+    from hgmon import ref
+
+    ins = gen.consumed_inputs(inner)
+    over = ins[: rng.randint(1, len(ins))]
+    mode = rng.choice(["zip", "product"]) if len(over) > 1 else "zip"
+    n = rng.randint(0, 3)
+    sub = {"k": "sub", "name": "inner", "prog": inner, "map": {"over": list(over), "mode": mode, "err": err or rng.choice(["raise", "continue"])}}
+    outs = [e for ns in inner["nodes"] for e in ref.data_output_names(ns)]
+    nodes = [sub]
+    if outs:
+        nodes.append({"k": "fn", "name": "post", "params": [{"n": rng.choice(outs)}], "outs": ["post_out"]})
+    spec = {"name": "outer", "nodes": nodes, "bind": {}}
+    inputs = {}
+    for k in ins:
+        inputs[k] = [f"{k}:{j}" for j in range(n)] if k in over else f"run:{k}"
+    return {"family": "mapped", "spec": spec, "inputs": inputs, "kw": {}, "unique_outputs": True, "over": over, "mode": mode}
+
+
+def cached(rng):
+    f = dag(rng)
+    for ns in f["spec"]["nodes"]:
+        if rng.random() < 0.5 and not ns.get("gen"):
+            ns["cache"] = True
+    f["family"] = "cached"
+    return f
+
+
+def rich(rng):
+    n = rng.choice(["dag", "dag-fallback", "gated", "loop", "nested", "nested", "mapped", "mapped", "cached", "waitdag"])
+    if n == "nested":
+        return nested(rng)
+    if n == "mapped":
+        return mapped(rng)
+    if n == "cached":
+        return cached(rng)
+    return pick(rng, [n])
